@@ -34,10 +34,13 @@ theorem taintRun_append (E : Env T H A R) : ∀ (a b : List (Event T)) (st : Sta
 
 /-! ### no D9 shape anywhere -/
 
-/-- no prefix of the history shows D9's shape at any key -/
-def NoD9 (E : Env T H A R) : State T H A R → List (Event T) → Prop
+/-- no prefix of the history shows D9's STALE-WRITE shape at any key (a document appears under a key that
+has an unwritten task or already a document). Formerly `NoD9` - renamed (review 2 item 5): the predicate
+does NOT exclude D9's other symptom, the LOST write (the key is renamed or deleted while a task runs and
+the task's write matches nothing; `ServerLive.lean`: `NoLostWrite`, `histLost`) -/
+def NoStaleWrite (E : Env T H A R) : State T H A R → List (Event T) → Prop
   | _, [] => True
-  | st, e :: es => (∀ u n, d9Shape E st e u n = false) ∧ NoD9 E (stepEv E st e).1 es
+  | st, e :: es => (∀ u n, d9Shape E st e u n = false) ∧ NoStaleWrite E (stepEv E st e).1 es
 
 theorem taintStep_noD9 (E : Env T H A R) (st : State T H A R) (e : Event T) (tn : T → T → Bool)
     (h0 : ∀ u n, tn u n = false) (hd : ∀ u n, d9Shape E st e u n = false) : ∀ u n, taintStep E st e tn u n = false := by
@@ -56,7 +59,7 @@ theorem taintStep_noD9 (E : Env T H A R) (st : State T H A R) (e : Event T) (tn 
   · exact h0 u n
 
 theorem taintRun_noD9 (E : Env T H A R) : ∀ (es : List (Event T)) (st : State T H A R) (tn : T → T → Bool),
-    (∀ u n, tn u n = false) → NoD9 E st es → ∀ u n, taintRun E st tn es u n = false := by
+    (∀ u n, tn u n = false) → NoStaleWrite E st es → ∀ u n, taintRun E st tn es u n = false := by
   intro es
   induction es with
   | nil => intro st tn h0 _; exact h0
@@ -65,17 +68,17 @@ theorem taintRun_noD9 (E : Env T H A R) : ∀ (es : List (Event T)) (st : State 
 /-- **no_d9_all_belong**: in every state reached from the empty server by a history that never shows
 D9's shape (deletions, account removals, renames allowed), whatever a document stores belongs to its
 own code -/
-theorem no_d9_all_belong (E : Env T H A R) (es : List (Event T)) (hd : NoD9 E {} es) (p : Problem T A R)
+theorem no_d9_all_belong (E : Env T H A R) (es : List (Event T)) (hd : NoStaleWrite E {} es) (p : Problem T A R)
     (hp : p ∈ (runAll E {} es).1.db.problems) : DocOK E p :=
   reachable_untainted_belong_to_the_code E es p hp (taintRun_noD9 E es {} _ (fun _ _ => rfl) hd _ _)
 
-/-- `NoD9` as a computation: D9's shape can only show at the key of a document of the new state -/
+/-- `NoStaleWrite` as a computation: D9's shape can only show at the key of a document of the new state -/
 def noD9b (E : Env T H A R) : State T H A R → List (Event T) → Bool
   | _, [] => true
   | st, e :: es =>
     (stepEv E st e).1.db.problems.all (fun p => !d9Shape E st e p.username p.name) && noD9b E (stepEv E st e).1 es
 
-theorem noD9b_sound (E : Env T H A R) : ∀ (es : List (Event T)) (st : State T H A R), noD9b E st es = true → NoD9 E st es := by
+theorem noD9b_sound (E : Env T H A R) : ∀ (es : List (Event T)) (st : State T H A R), noD9b E st es = true → NoStaleWrite E st es := by
   intro es
   induction es with
   | nil => intro _ _; trivial
@@ -159,7 +162,7 @@ theorem d9Shape_false_of_good (E : Env T H A R) {st : State T H A R} (h : Good E
 /-- **deletion-free histories never show D9's shape**: `reachable_results_belong_to_the_code`
 (`ServerReach.lean`) is the special case of `no_d9_all_belong` for them -/
 theorem noD9_of_keeps (E : Env T H A R) : ∀ (es : List (Event T)) (st : State T H A R), Good E st.db →
-    (∀ e ∈ es, e.keeps = true) → NoD9 E st es := by
+    (∀ e ∈ es, e.keeps = true) → NoStaleWrite E st es := by
   intro es
   induction es with
   | nil => intro _ _ _; trivial
